@@ -179,10 +179,16 @@ class Stack(Factory, Container):
             self.nanflow.zero(),
         )
 
+    def _sameThresholds(self, other):
+        # exact comparison, except that the NaN thresholds of a Stack.build result match each other
+        # (NaN != NaN would make such a Stack unmergeable with its own pickle clone or JSON reload)
+        a, b = self.thresholds, other.thresholds
+        return len(a) == len(b) and all(x == y or (math.isnan(x) and math.isnan(y)) for x, y in zip(a, b))
+
     @inheritdoc(Container)
     def __add__(self, other):
         if isinstance(other, Stack):
-            if self.thresholds != other.thresholds:
+            if not self._sameThresholds(other):
                 raise ContainerException("cannot add Stack because cut thresholds differ")
 
             out = Stack(
@@ -199,7 +205,7 @@ class Stack(Factory, Container):
     @inheritdoc(Container)
     def __iadd__(self, other):
         if isinstance(other, Stack):
-            if self.thresholds != other.thresholds:
+            if not self._sameThresholds(other):
                 raise ContainerException("cannot add Stack because cut thresholds differ")
             self.entries += other.entries
             for (k1, v1), (k2, v2) in zip(self.bins, other.bins):
